@@ -521,6 +521,8 @@ def run(ctx) -> dict:
             'get_atomic_sequence instantiates from maps every XSD builtin name to the datatype '
             'class of that name, per XSD version, and covers every named atomic datatype.',
         'not_decided':
+            '(Decided besides the tables: re-setting a proxy types the tree again, R20.6; '
+            'nilled elements have an empty typed value, R20.7.) '
             'Equality with the schema processor\'s decoding, instance-of for base types, typed '
             'arithmetic, and "a schema never changes node selection" depend on the external '
             'schema processor (xmlschema) and on extensional equality of branches; not decided.',
